@@ -33,7 +33,7 @@ TextVals2 == {St(<<"a">>), St(<<"a", "b">>), St(<<"a", "b", "c">>), St(<<"b">>),
 TextSchemas2 == {"T1", "T2", "T3", "T4", "T5", "T6", "T7"}
 IsDigits(v) == v.cs # <<>> /\ \A i \in DOMAIN v.cs : v.cs[i] \in {"0", "1", "2", "3", "4", "5", "6", "7", "8", "9"}
 (* multipart bodies whose parts go through the plain-text decoder against a property WITHOUT a type of its own (u3, a bare   *)
-(* enum); no number next to it (multipart text parts are not typed: F-C06-2 would mask the verdict)                          *)
+(* enum); no number next to it (chosen while multipart text parts were not typed: F-C06-2, repaired by 750547f; bodies with numbers are in the other groups)                          *)
 MultiUntypedVals == { Obj(<<"s", "u3">>, <<St(<<"a">>), St(<<"a">>)>>), Obj(<<"s", "u3">>, <<St(<<"a">>), St(<<"z">>)>>), Obj(<<"u3">>, <<St(<<"b">>)>>) }
 (* bodies for the wrapped schemas (S1 / S2 / S7 inside compositions, below items / a property) *)
 WrapVals == {
@@ -44,7 +44,7 @@ WrapVals == {
    Obj(<<"n">>, <<N(4)>>),
    Obj(<<"n">>, <<St(<<"x">>)>>),                         \* n is not an integer
    Obj(<<"s">>, <<St(<<"a">>)>>),
-   \* ... and without a number (multipart text parts are not typed: F-C06-2)
+   \* ... and without a number (chosen while F-C06-2 was open; multipart bodies with numbers are no longer excluded)
    Obj(<<"ro", "s">>, <<St(<<"v">>), St(<<"a">>)>>), Obj(<<"ro", "wo">>, <<St(<<"v">>), St(<<"w">>)>>), Obj(<<"wo">>, <<St(<<"w">>)>>) }
 Wraps == {"anyOf", "anyOf2", "oneOf", "allOf", "allOfT", "anyOfT", "oneOfT", "allOfAnyOf", "items", "itemsAnyOf", "prop", "propAnyOf"}
 WrapVal(v, w) == CASE w \in {"items", "itemsAnyOf"} -> Arr(<<v>>)
@@ -57,7 +57,7 @@ AltVals == { Obj(<<"by", "ref">>, <<St(<<"n", "a", "m", "e">>), St(<<"a", "b">>)
              Obj(<<"by">>, <<St(<<"i", "d">>)>>) }                                       \* ref missing
 (* bodies for S5 / S6: an EMPTY string is a value, not an absent property *)
 EmptyVals == { Obj(<<"n", "s">>, <<N(4), St(<<>>)>>), Obj(<<"n", "s">>, <<N(4), St(<<"a">>)>>), Obj(<<"n">>, <<N(4)>>),
-               \* ... and without a number next to it (multipart text parts are not typed: F-C06-2 would mask the verdict)
+               \* ... and without a number next to it (chosen while multipart text parts were not typed: F-C06-2, repaired by 750547f; bodies with numbers are in the other groups)
                Obj(<<"s">>, <<St(<<>>)>>), Obj(<<"s">>, <<St(<<"a">>)>>), Obj(<<"ls", "s">>, <<Arr(<<St(<<"a">>)>>), St(<<>>)>>) }
 
 (* ---------------------------------------------------- round 6b ---------------------------------------------------- *)
@@ -171,7 +171,6 @@ Init ==
         /\ (sc = "S3" => enc = "default")
         /\ case = [part |-> "decode", family |-> fam, schema |-> sc, v |-> v, excludeRO |-> xro, enc |-> enc, clen |-> cl, setDefaults |-> dflt]
    \/ \E fam \in {"json", "form", "multipart", "yaml"}, sc \in {"S4", "S4a"}, v \in AltVals :
-        /\ (fam = "multipart" => ~HasNum(v))           \* multipart text parts are not typed (F-C06-2)
         /\ case = [part |-> "decode", family |-> fam, schema |-> sc, v |-> v, excludeRO |-> FALSE, enc |-> "default", clen |-> "known", setDefaults |-> FALSE]
    \/ \E fam \in {"json", "form", "multipart", "yaml"}, sc \in {"S5", "S6"}, v \in EmptyVals :
         /\ (fam = "form" => ~\E i \in DOMAIN v.v : v.v[i] = St(<<>>))   \* "s=" in a urlencoded body: the open region "empty values" (as for parameters)
@@ -196,7 +195,6 @@ Init ==
    \* the object schema inside a composition / below items / below a property, x the read-only exclusion option
    \/ \E fam \in {"json", "form", "multipart", "yaml"}, sc \in {"S1", "S2", "S7"}, w \in Wraps \cup {"plain"}, v \in WrapVals, xro \in BOOLEAN :
         /\ (fam \in {"form", "multipart"} => w \in {"allOfT", "anyOfT", "oneOfT"})   \* the form decoders ask for "type: object" at the top (multipart below anyOf / oneOf: F-C06-6)
-        /\ (fam = "multipart" => ~HasNum(v))            \* multipart text parts are not typed (F-C06-2)
         /\ (w = "plain" => sc = "S7")                   \* (S1 / S2 unwrapped are the first group)
         /\ (HasKey(v, "wo") => sc = "S7")
         /\ (HasKey(v, "s") => sc # "S7")                \* S7 does not declare s: an undeclared field of a form body has no declared shape to decode by (left open)
